@@ -13,13 +13,19 @@ TOKEN_CHARS = frozenset(b"!#$%&'*+-.^_`|~0123456789abcdefghijklmnopqrstuvwxyzABC
 VERSION_RE = re.compile(rb"^HTTP/[0-9]\.[0-9]$")
 DIGITS_RE = re.compile(rb"^[0-9]+$")
 HEX_RE = re.compile(rb"^[0-9a-fA-F]+$")
-STATUS_RE = re.compile(rb"^[0-9]{3}$")
+# status-code is 3DIGIT; other digit strings are invalid but every recipient that accepts them frames the
+# message the same way (they are not 1xx/204/304), so P accepts them and the callers count them as a probe.
+STATUS_RE = re.compile(rb"^[0-9]{1,4}$")
 
 
 class Ambiguous(Exception):
-    def __init__(self, reason: str):
+    """kind: 'framing' (conflicting/malformed Content-Length/Transfer-Encoding, bad chunk framing),
+    'name' (invalid field name) or 'syntax' (anything else a strict reader refuses)."""
+
+    def __init__(self, reason: str, kind: str = "syntax"):
         super().__init__(reason)
         self.reason = reason
+        self.kind = kind
 
 
 class Incomplete(Exception):
@@ -92,7 +98,7 @@ def _read_fields(data: bytes, pos: int, what: str):
         if not sep:
             raise Ambiguous(f"field line without colon: {line[:40]!r}")
         if not _is_token(name):
-            raise Ambiguous(f"invalid field name {name[:40]!r}")
+            raise Ambiguous(f"invalid field name {name[:40]!r}", "name")
         value = value.strip(b" \t")
         if b"\x00" in value or b"\r" in value:
             invalid += 1
@@ -101,6 +107,14 @@ def _read_fields(data: bytes, pos: int, what: str):
 
 
 def _framing_fields(msg: Msg):
+    try:
+        return _framing_fields0(msg)
+    except Ambiguous as e:
+        e.kind = "framing"
+        raise
+
+
+def _framing_fields0(msg: Msg):
     te = msg.get_all(b"transfer-encoding")
     cl = msg.get_all(b"content-length")
     if te and cl:
@@ -141,7 +155,7 @@ def _read_chunked(data: bytes, pos: int, msg: Msg):
         size_part, sep, ext = line.partition(b";")
         size_part = size_part.rstrip(b" \t") if sep else size_part
         if not HEX_RE.match(size_part):
-            raise Ambiguous(f"invalid chunk size {line[:30]!r}")
+            raise Ambiguous(f"invalid chunk size {line[:30]!r}", "chunk")
         if sep:
             msg.chunk_exts += 1
         size = int(size_part, 16)
@@ -157,7 +171,7 @@ def _read_chunked(data: bytes, pos: int, msg: Msg):
             raise Incomplete("chunk data")
         body += data[pos:pos + size]
         if data[pos + size:pos + size + 2] != b"\r\n":
-            raise Ambiguous("chunk data not followed by CRLF")
+            raise Ambiguous("chunk data not followed by CRLF", "chunk")
         msg.chunk_sizes.append(size)
         pos += size + 2
 
@@ -174,17 +188,23 @@ def parse_request(data: bytes, pos: int = 0) -> Msg:
     if len(parts) != 3:
         raise Ambiguous(f"request-line does not have three SP-separated parts: {line[:60]!r}")
     msg.method, msg.target, msg.version = parts
-    if not _is_token(msg.method):
-        raise Ambiguous("method is not a token")
-    if not msg.target or any(c <= 0x20 or c == 0x7F for c in msg.target):
+    # Octets that are invalid in a method/target but that no recipient treats as a delimiter (visible ASCII
+    # outside tchar, obs-text >= 0x80) do not change how the stream is framed: accepted, counted by callers
+    # through msg.invalid_octets.  Controls, SP, HTAB and DEL are refused.
+    # (the split at SP above already guarantees there is no SP inside; CR/LF cannot be inside a line)
+    if not msg.method or b"\t" in msg.method:
+        raise Ambiguous("empty method or HTAB in method")
+    if not msg.target or b"\t" in msg.target:
         raise Ambiguous("invalid request-target")
+    if not _is_token(msg.method) or any(c <= 0x20 or c >= 0x7F for c in msg.target):
+        msg.invalid_octets += 1
     if not VERSION_RE.match(msg.version):
         raise Ambiguous(f"invalid HTTP-version {msg.version[:20]!r}")
     msg.headers, pos, msg.invalid_octets = _read_fields(data, pos, "header section")
     kind, val = _framing_fields(msg)
     if kind == "te":
         if val[-1] != b"chunked":
-            raise Ambiguous("request Transfer-Encoding whose final coding is not chunked")
+            raise Ambiguous("request Transfer-Encoding whose final coding is not chunked", "framing")
         msg.framing = "chunked"
         msg.complete = False
         pos = _read_chunked(data, pos, msg)
@@ -268,6 +288,7 @@ class Parsed:
     rest: bytes = b""
     partial: Msg | None = None
     tunnel_from: int | None = None
+    kind: str = ""
 
 
 def parse_requests(data: bytes, stop_after_connect: bool = True) -> Parsed:
@@ -283,7 +304,7 @@ def parse_requests(data: bytes, stop_after_connect: bool = True) -> Parsed:
         try:
             m = parse_request(data, pos)
         except Ambiguous as e:
-            return Parsed(msgs, "ambiguous", e.reason, data[pos:])
+            return Parsed(msgs, "ambiguous", e.reason, data[pos:], kind=e.kind)
         except IncompleteBody as e:
             return Parsed(msgs, "incomplete", "body", data[pos:], partial=e.msg)
         except Incomplete as e:
@@ -308,7 +329,7 @@ def parse_responses(data: bytes, methods: list, eof: bool) -> Parsed:
         try:
             m = parse_response(data, pos, methods[mi], eof)
         except Ambiguous as e:
-            return Parsed(msgs, "ambiguous", e.reason, data[pos:])
+            return Parsed(msgs, "ambiguous", e.reason, data[pos:], kind=e.kind)
         except IncompleteBody as e:
             return Parsed(msgs, "incomplete", "body", data[pos:], partial=e.msg)
         except Incomplete as e:
